@@ -423,6 +423,17 @@ func parseRule(node *yaml.Node, offsetLine, offsetColumn int, contentLines []str
 		}, false
 	}
 
+	// Prometheus refuses braces in a recording rule name: it's usually a PromQL expression put in the wrong field.
+	if recordPart != nil && (strings.Contains(recordPart.Value, "{") || strings.Contains(recordPart.Value, "}")) {
+		return Rule{
+			Lines: lines,
+			Error: ParseError{
+				Line: recordPart.Pos.Lines().First,
+				Err:  fmt.Errorf("braces present in the recording rule name; should it be in expr?: %s", recordPart.Value),
+			},
+		}, false
+	}
+
 	if (recordPart != nil || alertPart != nil) && labelsPart != nil {
 		for _, lab := range labelsPart.Items {
 			if !model.LabelName(lab.Key.Value).IsValid() || lab.Key.Value == model.MetricNameLabel {
